@@ -154,6 +154,10 @@ impl Write for DBFile {
     }
 
     fn write(&mut self, buf: &[u8]) -> io::Result<usize> {
+        #[cfg(feature = "verif")]
+        if crate::verif::iotap::enabled() {
+            return crate::verif::iotap::tapped_write(&mut self.f, &self.p, buf);
+        }
         self.f.write(buf)
     }
 }
@@ -181,6 +185,9 @@ impl FileOperations for DBFile {
             .sync_on_write(false) // This is O_DSYNC (not used for now)
             .open(&path)?;
 
+        #[cfg(feature = "verif")]
+        crate::verif::iotap::record_create(path.as_ref());
+
         Ok(Self {
             f,
             p: path.as_ref().to_path_buf(),
@@ -203,16 +210,22 @@ impl FileOperations for DBFile {
 
     // Forcefully remove he file
     fn remove(path: impl AsRef<Path>) -> io::Result<()> {
+        #[cfg(feature = "verif")]
+        crate::verif::iotap::record_remove(path.as_ref());
         fs::remove_file(path)
     }
 
     // truncate the file to 0 len
     fn truncate(&mut self) -> io::Result<()> {
+        #[cfg(feature = "verif")]
+        crate::verif::iotap::record_set_len(&self.p, 0);
         self.f.set_len(0)
     }
 
     // sync the file to disk
     fn sync_all(&self) -> io::Result<()> {
+        #[cfg(feature = "verif")]
+        crate::verif::iotap::record_sync(&self.p);
         File::sync_all(&self.f)
     }
 }
